@@ -34,7 +34,11 @@ namespace bloc
 
 Value& MemberDELETEExpression::value(Context& ctx) const
 {
-  Value& val = _exp->value(ctx);
+  /* in place only on a variable or on an element or item of one: anything
+   * else that hands back a stored value (a constant, an argument returned as
+   * is by a function) is worked on through a copy */
+  Value& rcv = _exp->value(ctx);
+  Value& val = (_exp->symbolId() == nid && rcv.lvalue() ? ctx.allocate(rcv.clone()) : rcv);
   Value& a0 = _args[0]->value(ctx);
   if (val.isNull() || a0.isNull())
     throw RuntimeError(EXC_RT_INDEX_RANGE_S, a0.toString().c_str());
